@@ -41,7 +41,7 @@ def specs(draw, max_formulas=14, with_arrays=True, with_names=True,
         st.sampled_from(CONSTS), st.sampled_from(CONSTS),
         st.sampled_from(CONSTS), st.sampled_from(ODD_CONSTS),
         st.integers(-50, 50))
-    sheets = {SHEET: {}, INSHEET: {}}
+    sheets = {INSHEET: {}, SHEET: {}}     # the active sheet is not the first
     inputs, formulas, ranges, arrays, names = [], [], [], [], {}
 
     # input-only sheet; B3 is a fixed anchor so that the used area is always
